@@ -16,7 +16,9 @@ def run(tier: str, seed: int) -> Report:
         "Polars lazy x entry points eval(), transform(), ex() and `df >> ops` (the last three where defined: single-table pipelines; "
         "ex() on eager frames). NONTRIVIAL = the call returned on a non-raising path and (I) every caller-owned input frame was "
         "compared with its deep pre-call snapshot (values, dtypes, column index, row index; Polars: values + schema) and (R) the "
-        "second result was compared with the first. Calls that raised still have their inputs checked and are counted as raised."
+        "second result was compared with the first (the repeat comparison is omitted, and the evaluation counted as ok-mutation-only, "
+        "when the data make the pipeline's result undetermined: ties in a window ordering or a mid-chain limit cutting through ties). "
+        "Calls that raised still have their inputs checked and are counted as raised."
         % (sc["depths"], sc["max_rows"])
     )
     rep.bounded_label = "bounded: chains of depth %s, data sets per pipeline by depth %s, tables <= %d rows, 3 frame kinds x up to 4 entry points x 2 repetitions" % (
